@@ -268,3 +268,9 @@ def run(ctx):
     ncases = N_CASES[ctx.tier] if ctx.mode == "prod" else max(40, N_CASES[ctx.tier] // 3)
     for _ in range(ncases):
         ctx.run_case(gen_case(rng, dtypes), check, features, nontrivial, common.shrink)
+
+
+def evidence_extra(agg):
+    c = agg["counters"]
+    return {"evaluations": int(agg["n_eval"] + c.get("pairs_compared", 0)), "logical_cases": agg["n_eval"],
+            "container_matrix": {k: v for k, v in c.items() if k.startswith(("vc:", "kc:"))}}
